@@ -14,12 +14,14 @@ static const size_t W = 65535;
 static std::string g_dir;
 
 // =========================================================================================== prefix (C05)
-struct Seed { std::string name, bytes; RFile rf; std::vector<std::string> lib_blocks; std::string lib_preamble; };
+struct Seed { std::string name, bytes; RFile rf; std::vector<std::string> lib_blocks; std::string lib_preamble; std::string lib_error; };
+static bool g_seed_errors_are_findings = false;   // prefix mode: a valid file that the library reader does not read completely is a finding, not a broken harness
 
 static Seed mk_seed(const std::string& name, const std::string& bytes) {
     Seed s; s.name = name; s.bytes = bytes; s.rf = read_file(bytes);
     lib::LibFile lf = lib::read_bytes(bytes); s.lib_blocks = lf.blocks; s.lib_preamble = lf.preamble;
-    if (lf.end != "eof" || lf.blocks.size() != s.rf.blocks.size()) { fprintf(stderr, "seed %s: library reader does not read the full file (%s)\n", name.c_str(), lf.end.c_str()); exit(2); }
+    if (lf.end != "eof" || lf.blocks.size() != s.rf.blocks.size()) { s.lib_error = "library reader returns " + std::to_string(lf.blocks.size()) + " of " + std::to_string(s.rf.blocks.size()) + " blocks and ends with: " + lf.end;
+        if (!g_seed_errors_are_findings) { fprintf(stderr, "seed %s: library reader does not read the full file (%s)\n", name.c_str(), lf.end.c_str()); exit(2); } }
     return s;
 }
 
@@ -244,6 +246,7 @@ int main(int argc, char** argv) {
     auto done = [&](int rc) { a.finish(total); rm_rf(g_dir); return rc; };
 
     if (a.mode == "prefix") {
+        g_seed_errors_are_findings = true;
         std::vector<Seed> seeds;
         seeds.push_back(mk_seed("small", seeds::small()));
         seeds.push_back(mk_seed("mid", seeds::mid()));
@@ -257,9 +260,26 @@ int main(int argc, char** argv) {
             Node root = parse_exact(seeds::small()); root.kids[2].indef = !def; Node val = text ? mk_tstr(std::string(len, 'u')) : mk_bstr(std::string(len, '\x55'));
             root.kids[1].kids.insert(root.kids[1].kids.end(), {mk_int(-10), val}); for (auto& blk : root.kids[2].kids) blk.kids.insert(blk.kids.end(), {mk_int(-10), val});
             seeds.push_back(mk_seed(std::string("small-unknown-tail-") + (def ? "definite-" : "") + (text ? "t" : "b") + std::to_string(len), encode(root))); }
+        // files from another encoder: every array and map in indefinite-length form, padded so that the BREAK of one chosen array lies exactly on a multiple of the
+        // decoder window (a break that is the first byte of a refill). One file per chosen array (block array, tables, record arrays, index lists ...).
+        { seeds::Opt o0; o0.sets = {seeds::PS(10000, 1000000, 0)}; o0.blocks = 3; o0.per_block = 2;
+          auto all_indef = [](const std::string& bytes) { Node root = parse_exact(bytes); visit(root, [](Node& n) { if (n.major == 4 || n.major == 5) n.indef = true; }); return encode(root); };
+          auto array_breaks = [](const std::string& enc) { Node r = parse_exact(enc); std::vector<size_t> v; visit((const Node&)r, [&](const Node& n) { if (n.major == 4 && n.indef) v.push_back(n.end - 1); }); return v; };
+          std::vector<size_t> br0 = array_breaks(all_indef(seeds::make(o0))); size_t made = 0;
+          for (size_t k = 0; k < br0.size() && made < (T ? 24 : 8); k += std::max<size_t>(1, br0.size() / (T ? 24 : 8))) {
+              seeds::Opt o = o0; size_t pad = W; std::string enc;
+              for (int it = 0; it < 8; it++) { o.pad_text.assign(pad, 'x'); enc = all_indef(seeds::make(o)); std::vector<size_t> br = array_breaks(enc); if (br.size() != br0.size()) break; size_t off = br[k] % W; if (off == 0) break; pad += W - off; if (pad > 2 * W) pad -= W; }
+              std::vector<size_t> br = array_breaks(enc); if (br.size() != br0.size() || br[k] % W != 0 || (unsigned char)enc[br[k]] != 0xff) continue;
+              seeds.push_back(mk_seed("indef-break-on-window-" + std::to_string(k), enc)); made++; }
+          if (made == 0) { fprintf(stderr, "could not place any array break on a window boundary\n"); return done(2); } }
         // files whose first block end falls on / one before / one after a window boundary
         { std::string base = seeds::exact(W + 200, 2); RFile r = read_file(base); long d = (long)r.blocks[0].end - (long)W; for (int delta : {-1, 0, 1}) seeds.push_back(mk_seed("blockend" + std::to_string(delta), seeds::exact(W + 200 - d + delta, 2))); }
         for (auto& s : seeds) if (s.name.rfind("exact", 0) == 0 && s.bytes.size() % W != 0) { fprintf(stderr, "seed %s has size %zu\n", s.name.c_str(), s.bytes.size()); return done(2); }
+        // n = |f|: the complete (valid) file must be read completely
+        if (a.replay.empty() || slurp(a.replay).find("kind=fullread") != std::string::npos) { std::string only; if (!a.replay.empty()) { std::string rs = slurp(a.replay); size_t q = rs.find("seed="); only = rs.substr(q + 5, rs.find(';', q) == std::string::npos ? std::string::npos : rs.find(';', q) - q - 5); while (!only.empty() && isspace((unsigned char)only.back())) only.pop_back(); }
+            for (auto& sd : seeds) if (!sd.lib_error.empty() && (only.empty() || only == sd.name)) total.violation("prefix|valid-file-not-read-completely|" + sd.name.substr(0, sd.name.find_last_of('-')), "seed " + sd.name + " (" + std::to_string(sd.bytes.size()) + " bytes, valid): " + sd.lib_error, "kind=fullread;seed=" + sd.name);
+            if (!a.replay.empty()) return done(total.viol.empty() ? 0 : 1); }
+        { std::vector<Seed> ok; for (auto& sd : seeds) if (sd.lib_error.empty()) ok.push_back(sd); seeds = ok; }
         struct Task { int kind; size_t seed; size_t lo, hi; int p; };
         std::vector<Task> tasks;
         std::map<size_t, std::vector<size_t>> points;
